@@ -578,4 +578,117 @@ theorem namesOK_createNames {s : LSpec} (h : namesOK s = true) :
   simp only [namesOK, Bool.and_eq_true, Bool.not_eq_true'] at h
   exact h.1
 
+/-! ### The generator fails only on front-end errors -/
+
+/-- `genModes` is `none` only for the errors it models: if the names are accepted (`namesOK`), every
+rule has its pairs (`@push_mode` / `@emit` name a mode / token, action lists legal), no mode has a
+cross-file conflict, and classes are written `lo ≤ hi`, then `lexer.gen.go` is written: no panic of
+`rang3.Normalize`, `GetStateGroup` or `AddRow` for any specification (`C02.generator_total` for
+every mode). -/
+theorem genModes_total (s : LSpec) (hn : namesOK s = true)
+    (hp : ∀ r ∈ allRules s, (r.pairs s).isSome = true)
+    (hc : ∀ n ∈ modeNames s,
+      conflictFree ((modeRules s n).map (·.file)) ((modeRules s n).map (·.body)) = true)
+    (hcls : ∀ r ∈ allRules s, r.body.clsOK = true) :
+    ∃ modes, genModes s = some modes := by
+  unfold genModes
+  rw [if_pos hn]
+  have : ∃ ys, allSome ((modeNames s).map fun n => genModeOf s (modeRules s n)) = some ys := by
+    apply allSome_isSome_of
+    intro x hx
+    obtain ⟨n, hnm, rfl⟩ := List.mem_map.1 hx
+    unfold genModeOf
+    obtain ⟨pss, hpss⟩ := allSome_isSome_of (l := (modeRules s n).map (GRule.pairs s)) (by
+      intro y hy
+      obtain ⟨r, hr, rfl⟩ := List.mem_map.1 hy
+      exact hp r (modeRules_sub s n r hr))
+    rw [hpss]
+    simp only [hc n hnm, if_true]
+    obtain ⟨tbl, ht⟩ := Lox.Props.C02.generator_total ((modeRules s n).map (·.body))
+      (((modeRules s n).map fun r => r.body.toRe).zip pss) (by
+        intro x hx
+        obtain ⟨r, hr, rfl⟩ := List.mem_map.1 hx
+        exact hcls r (modeRules_sub s n r hr))
+    rw [ht]; rfl
+  obtain ⟨ys, hys⟩ := this
+  exact ⟨ys.toArray, by rw [hys]; rfl⟩
+
+/-! ### `slices.Sort` is modelled by its result -/
+
+theorem str_lt_of_not_lt_of_ne {a b : String} (h : ¬ a < b) (hne : a ≠ b) : b < a := by
+  rcases Classical.em (b < a) with h1 | h1
+  · exact h1
+  · exact absurd (String.le_antisymm (String.not_lt.1 h1) (String.not_lt.1 h)) hne
+
+theorem insertName_sorted {n : String} {l : List String} (hs : l.Pairwise (· < ·))
+    (hn : n ∉ l) : (insertName n l).Pairwise (· < ·) := by
+  induction l with
+  | nil => simp [insertName]
+  | cons x xs ih =>
+    obtain ⟨hx, hxs⟩ := List.pairwise_cons.1 hs
+    simp only [insertName]
+    split
+    · rename_i hlt
+      refine List.pairwise_cons.2 ⟨?_, hs⟩
+      intro y hy
+      rcases List.mem_cons.1 hy with rfl | hy
+      · exact hlt
+      · exact String.lt_trans hlt (hx y hy)
+    · rename_i hnlt
+      have hxn : x < n := str_lt_of_not_lt_of_ne hnlt (fun h => hn (by simp [h]))
+      refine List.pairwise_cons.2 ⟨?_, ih hxs (fun h => hn (by simp [h]))⟩
+      intro y hy
+      rcases mem_insertName.1 hy with rfl | hy
+      · exact hxn
+      · exact hx y hy
+
+theorem sortNames_sorted {ns : List String} (hnd : ns.Nodup) :
+    (sortNames ns).Pairwise (· < ·) := by
+  induction ns with
+  | nil => simp [sortNames]
+  | cons y ys ih =>
+    obtain ⟨hy, hys⟩ := List.nodup_cons.1 hnd
+    show (insertName y (sortNames ys)).Pairwise (· < ·)
+    exact insertName_sorted (ih hys) (by rw [mem_sortNames]; exact hy)
+
+theorem sorted_ext : ∀ {l₁ l₂ : List String}, l₁.Pairwise (· < ·) → l₂.Pairwise (· < ·) →
+    (∀ x, x ∈ l₁ ↔ x ∈ l₂) → l₁ = l₂
+  | [], [], _, _, _ => rfl
+  | [], b :: _, _, _, h => by have := (h b).2 (by simp); simp at this
+  | a :: _, [], _, _, h => by have := (h a).1 (by simp); simp at this
+  | a :: t₁, b :: t₂, h1, h2, h => by
+    obtain ⟨ha, ht1⟩ := List.pairwise_cons.1 h1
+    obtain ⟨hb, ht2⟩ := List.pairwise_cons.1 h2
+    have hab : a = b := by
+      rcases Classical.em (a = b) with e | e
+      · exact e
+      · have h3 : a ∈ t₂ := by
+          rcases List.mem_cons.1 ((h a).1 (by simp)) with h' | h'
+          · exact absurd h' e
+          · exact h'
+        have h4 : b ∈ t₁ := by
+          rcases List.mem_cons.1 ((h b).2 (by simp)) with h' | h'
+          · exact absurd h'.symm e
+          · exact h'
+        exact absurd (hb a h3) (String.lt_asymm (ha b h4))
+    subst hab
+    congr 1
+    apply sorted_ext ht1 ht2
+    intro x
+    constructor
+    · intro hx
+      rcases List.mem_cons.1 ((h x).1 (by simp [hx])) with h' | h'
+      · subst h'; exact absurd (ha x hx) (String.lt_irrefl _)
+      · exact h'
+    · intro hx
+      rcases List.mem_cons.1 ((h x).2 (by simp [hx])) with h' | h'
+      · subst h'; exact absurd (hb x hx) (String.lt_irrefl _)
+      · exact h'
+
+/-- `slices.Sort(modeNames)` (pdqsort) is modelled by its result: any increasing list that holds
+exactly the names – which are distinct, being the keys of `ctx.LexerModes` – is `sortNames`. -/
+theorem sortNames_unique {ns : List String} (hnd : ns.Nodup) {l : List String}
+    (hs : l.Pairwise (· < ·)) (hmem : ∀ x, x ∈ l ↔ x ∈ ns) : l = sortNames ns :=
+  sorted_ext hs (sortNames_sorted hnd) (fun x => by rw [hmem, mem_sortNames])
+
 end Lox.Lex.GenSpec
